@@ -62,6 +62,9 @@ Table == <<
   [n |-> "build args key starting with x-", top |-> FALSE, p |-> <<"build">>, short |-> M2("context", S("."), "args", Sq1(S("x-arg=1"))), long |-> M2("context", S("."), "args", M1("x-arg", S("1")))],
   [n |-> "sysctls key starting with x-", top |-> FALSE, p |-> <<"sysctls">>, short |-> Sq1(S("x-y.z=1")), long |-> M1("x-y.z", S("1"))],
   [n |-> "extra_hosts name starting with x-", top |-> FALSE, p |-> <<"extra_hosts">>, short |-> Sq1(S("x-host=10.0.0.1")), long |-> M1("x-host", S("10.0.0.1"))],
+  \* several devices in the three-field form with the same permissions: each is an entry of its own (the key is the target)
+  [n |-> "devices with equal permissions", top |-> FALSE, p |-> <<"devices">>, short |-> L(<<S("/dev/a:/dev/x:rw"), S("/dev/b:/dev/y:rw"), S("/dev/c:/dev/z:rw")>>),
+     long |-> L(<<M3("source", S("/dev/a"), "target", S("/dev/x"), "permissions", S("rw")), M3("source", S("/dev/b"), "target", S("/dev/y"), "permissions", S("rw")), M3("source", S("/dev/c"), "target", S("/dev/z"), "permissions", S("rw"))>>)],
   [n |-> "labels list with = in the value", top |-> FALSE, p |-> <<"labels">>, short |-> Sq2(S("k=a=b"), S("q==")), long |-> M2("k", S("a=b"), "q", S("="))],
   [n |-> "sysctls list", top |-> FALSE, p |-> <<"sysctls">>, short |-> Sq1(S("net.core.somaxconn=1024")), long |-> M1("net.core.somaxconn", S("1024"))],
   [n |-> "annotations list", top |-> FALSE, p |-> <<"annotations">>, short |-> Sq1(S("k=v")), long |-> M1("k", S("v"))],
